@@ -1,9 +1,176 @@
-//! STUB component for tpmserver -- to be written
+//! component 24: TpmServer1_2.  Case vocabulary documented in coq/theories/Spec/Tpm2S.v.
 use crate::sx::*;
+use crate::tcommon::*;
 use crate::Emit;
+use acpi_tables::gas::{AccessSize, AddressSpace, GAS};
+use acpi_tables::tpm2::TpmServer1_2;
 
-pub fn run(_case: &Sx, _out: &mut Vec<Ev>) {
-    panic!("harness: component tpmserver not implemented")
+fn space(n: u64) -> AddressSpace {
+    match n {
+        0x0 => AddressSpace::SystemMemory,
+        0x1 => AddressSpace::SystemIo,
+        0x2 => AddressSpace::PciConfigSpace,
+        0x3 => AddressSpace::EmbeddedController,
+        0x4 => AddressSpace::Smbus,
+        0x5 => AddressSpace::SystemCmos,
+        0x6 => AddressSpace::PciBarTarget,
+        0x7 => AddressSpace::Ipmi,
+        0x8 => AddressSpace::GeneralPursposeIo,
+        0x9 => AddressSpace::GenericSerialBus,
+        0xa => AddressSpace::PlatformCommunicationsChannel,
+        0xb => AddressSpace::PlatformRuntimeMechanism,
+        0x7f => AddressSpace::FunctionalFixedHardware,
+        _ => panic!("harness: bad AddressSpace"),
+    }
 }
 
-pub fn gen(_tier: &str, _rng: &mut Rng, _emit: &mut Emit) {}
+fn access(n: u64) -> AccessSize {
+    match n {
+        0 => AccessSize::Undefined,
+        1 => AccessSize::ByteAccess,
+        2 => AccessSize::WordAccess,
+        3 => AccessSize::DwordAccess,
+        4 => AccessSize::QwordAccess,
+        _ => panic!("harness: bad AccessSize"),
+    }
+}
+
+fn gas(o: &[Sx]) -> GAS {
+    GAS::new(space(o[1].num()), o[2].num() as u8, o[3].num() as u8, access(o[4].num()), o[5].num())
+}
+
+pub fn run(case: &Sx, out: &mut Vec<Ev>) {
+    let c = case.list();
+    let ctor = c[0].list();
+    let (oem, tbl, rev) = hdr_args(ctor);
+    let mut t = TpmServer1_2::new(oem, tbl, rev);
+    for op in &c[1..] {
+        if let Sx::A(_) = op {
+            out.push(image(&t));
+            continue;
+        }
+        let o = op.list();
+        let n = |i: usize| o[i].num();
+        t = match n(0) {
+            1 => t.log_area(n(1), n(2)),
+            2 => t.active_low(),
+            3 => t.edge_triggered(),
+            4 => t.sci_gpe(n(1) as u8),
+            5 => t.gsi(n(1) as u32),
+            6 => t.bus_is_pnp(),
+            7 => t.pci_sbdf(n(1) as u8, n(2) as u8, n(3) as u8, n(4) as u8),
+            8 => t.base_addr(gas(o)),
+            9 => t.config_addr(gas(o)),
+            _ => panic!("harness: bad tpmserver op"),
+        };
+        out.push(Ev::Num(0));
+    }
+}
+
+const SPACES: [u64; 13] = [0, 1, 2, 3, 4, 5, 6, 7, 8, 9, 0xa, 0xb, 0x7f];
+
+fn rand_gas(rng: &mut Rng, id: u64) -> Sx {
+    l(vec![a(id), a(*rng.pick(&SPACES)), a(rng.val(8)), a(rng.val(8)), a(rng.below(5)), a(rng.val(64))])
+}
+
+pub fn rand_op(rng: &mut Rng, kind: u64) -> Sx {
+    match kind {
+        1 => l(vec![a(1), a(rng.val(64)), a(rng.val(64))]),
+        2 | 3 | 6 => l(vec![a(kind)]),
+        4 => l(vec![a(4), a(rng.val(8))]),
+        5 => l(vec![a(5), a(rng.val(32))]),
+        7 => l(vec![a(7), a(rng.val(8)), a(rng.val(8)), a(rng.below(32)), a(rng.below(8))]),
+        _ => rand_gas(rng, kind),
+    }
+}
+
+fn shuffle(rng: &mut Rng, v: &mut Vec<u64>) {
+    for i in (1..v.len()).rev() {
+        let j = rng.below(i as u64 + 1) as usize;
+        v.swap(i, j);
+    }
+}
+
+fn emit_prog(rng: &mut Rng, emit: &mut Emit, kinds: &[u64]) {
+    let c = l(rand_hdr(rng));
+    let ops = kinds.iter().map(|k| rand_op(rng, *k)).collect();
+    emit.case(24, history(rng, c, ops));
+}
+
+pub fn gen(tier: &str, rng: &mut Rng, emit: &mut Emit) {
+    let kinds: Vec<u64> = (1..=9).collect();
+    // no builder at all
+    for _ in 0..6 {
+        emit_prog(rng, emit, &[]);
+    }
+    // each builder alone (several argument sets), all ordered pairs (incl. the same builder twice), all ordered triples
+    for k in &kinds {
+        for _ in 0..6 {
+            emit_prog(rng, emit, &[*k]);
+        }
+    }
+    for k1 in &kinds {
+        for k2 in &kinds {
+            emit_prog(rng, emit, &[*k1, *k2]);
+        }
+    }
+    for k1 in &kinds {
+        for k2 in &kinds {
+            for k3 in &kinds {
+                if k1 != k2 && k2 != k3 && k1 != k3 {
+                    emit_prog(rng, emit, &[*k1, *k2, *k3]);
+                }
+            }
+        }
+    }
+    // every subset of the 9 builders: declaration order, reverse order, random orders, and with repetitions
+    let orders = if tier == "thorough" { 12 } else { 2 };
+    for mask in 0u32..512 {
+        let sub: Vec<u64> = kinds.iter().filter(|k| mask & (1 << (**k - 1)) != 0).cloned().collect();
+        emit_prog(rng, emit, &sub);
+        let mut r = sub.clone();
+        r.reverse();
+        emit_prog(rng, emit, &r);
+        for _ in 0..orders {
+            let mut p = sub.clone();
+            shuffle(rng, &mut p);
+            emit_prog(rng, emit, &p);
+            if !p.is_empty() {
+                // repetitions: some members called again at random places (with fresh arguments: last writer wins)
+                let extra = rng.range(1, 4);
+                for _ in 0..extra {
+                    let x = *rng.pick(&sub);
+                    let at = rng.below(p.len() as u64 + 1) as usize;
+                    p.insert(at, x);
+                }
+                emit_prog(rng, emit, &p);
+            }
+        }
+    }
+    // pci_sbdf boundaries: device 31 / 32, function 7 / 8 (beyond: refused), in the middle of a chain
+    for (d, f) in [(0u64, 0u64), (31, 7), (32, 0), (0, 8), (32, 8), (255, 255), (31, 8), (32, 7)] {
+        let c = l(rand_hdr(rng));
+        let ops = vec![rand_op(rng, 1), l(vec![a(7), a(rng.val(8)), a(rng.val(8)), a(d), a(f)]), rand_op(rng, 5)];
+        emit.case(24, history(rng, c, ops));
+    }
+    // every address space / access size through both GAS builders
+    for sp in SPACES {
+        for acc in 0..5u64 {
+            let c = l(rand_hdr(rng));
+            let id = 8 + rng.below(2);
+            let ops = vec![l(vec![a(id), a(sp), a(rng.val(8)), a(rng.val(8)), a(acc), a(rng.val(64))])];
+            emit.case(24, history(rng, c, ops));
+        }
+    }
+    // random chains with repetitions
+    let n = if tier == "thorough" { 3000 } else { 200 };
+    for _ in 0..n {
+        let len = match rng.below(3) {
+            0 => rng.range(1, 6),
+            1 => rng.range(1, 24),
+            _ => rng.range(25, 60),
+        };
+        let p: Vec<u64> = (0..len).map(|_| *rng.pick(&kinds)).collect();
+        emit_prog(rng, emit, &p);
+    }
+}
